@@ -67,6 +67,7 @@ def rand_fat(r, ty, n, style):
     if style == "cyclic" and n > 4:
         a, b = r.randrange(2, n), r.randrange(2, n)
         fat[a], fat[b] = b, a
+        rand_fat.cycle_at = a
     return fat
 
 
@@ -109,6 +110,8 @@ def run(tier):
             impl, "alloc:%d:%s:%s" % (ty, style, impl.split(" ")[0] + impl.split(" ")[1][:3]), "alloc", ["C04", "C08", "C01", "C09"])
         # chain follower
         start = r.choice([0, 1, 2, r.randrange(n + 2), n, n + 1])
+        if style == "cyclic" and n > 4 and r.random() < 0.7:
+            start = rand_fat.cycle_at          # walk into the cycle: the loop guard decides how far
         pf, _, _ = mk_pf(ty, fat, hint, count, spc)
         got = []
         try:
